@@ -697,6 +697,31 @@ def rule_hungarian(ctx, R):
                       'an element of the distance stream can be skipped before its %s (per element %s, expected %s): a '
                       'query that only has such elements disappears from the result instead of winning itself' % (
                           what, r, want))
+    # the row of a query and the column of a track are found BY ID: the cell index of a stream element is read from
+    # (or freshly registered in) the id -> index map under the element's own `from` / `to`. Rows opened by adjacency
+    # ("a new row whenever `from` differs from the previous element") depend on how the shard workers' chunks
+    # interleave in the stream.
+    def keyed(e, field):
+        for y in e.walk():
+            if y.kind == 'call' and y.name.rsplit('::', 1)[-1] in ('get', 'entry', 'get_mut', 'get_or_insert_with', 'remove') \
+                    and 'HashMap' in y.name and len(y.args) >= 2 and y.args[1].has_field(field):
+                return True
+        return False
+    ins = {f: [c for c in b.find_calls('std::collections::HashMap::insert', 'std::collections::HashMap::entry')
+               if len(c.args) >= 2 and ebx.arg(c, 1).has_field(f)] for f in ('from', 'to')}
+    for c in b.find_calls('get_mut'):
+        if 'Matrix' not in c.callee or not b.in_loop(c.bb):
+            continue
+        idx = ebx.arg(c, 1).strip()
+        if not (idx.kind == 'agg' and len(idx.args) == 2 and (idx.has_field('from') or idx.has_field('to'))):
+            continue
+        for comp, f, what in ((idx.args[0], 'from', 'row'), (idx.args[1], 'to', 'column')):
+            n += 1
+            ctx.check(keyed(comp, f) and bool(ins[f]), R, b, 'hungarian:%s-found-by-id' % what, repr(comp)[:100],
+                      'the %s of a stream element in the cost matrix is %r: it is not looked up in / registered under the '
+                      "element's `%s` id in the id -> index map (%d registration site(s)); indices assigned by position or "
+                      'adjacency in the stream depend on the order in which the shard workers answer' % (
+                          what, comp, f, len(ins[f])), c.ln)
     return n
 
 
